@@ -131,6 +131,13 @@ def wl_c01(tier, seed, shard, nshards):
             prog['pos'] = name
             prog['hole'] = s
             yield prog
+    # revisit: every literal of the whole corpus once, and then once more after all the others have been through
+    # the library in between (state that accumulates over distinct literals: escape caches, interning tables)
+    corpus = G.hostile_strings('quick', random.Random(seed))
+    for rnd_ in (0, 1):
+        for s in corpus:
+            if s:
+                yield {'prog': G.PL(s) if rnd_ == 0 else G.OPN('cat', G.L(s), G.L('x')), 'form': 'c', 'w': 'W1rev', 'pos': 'revisit%d' % rnd_, 'hole': s}
 
 
 def backref_programs():
@@ -182,6 +189,8 @@ def wl_c02(tier, seed, shard, nshards):
     yield from take(backref_programs(), shard, nshards)
     yield from take(many_groups_programs(), shard, nshards)
     yield from take(G.meta_operand_programs(), shard, nshards)
+    yield from take(G.deep_programs(), shard, nshards)
+    yield from take(G.many_operand_programs(), shard, nshards)
     yield from take(G.w3_depth1(), shard, nshards)
     r = shard_rnd(seed, shard, 1)
     if tier == 'quick':
@@ -199,6 +208,9 @@ def wl_c03(tier, seed, shard, nshards):
     yield from take(G.w_invalid(), shard, nshards)
     yield from take(G.w_stress(), shard, nshards)
     yield from take(G.meta_operand_programs(), shard, nshards * (3 if tier == 'quick' else 1))
+    yield from take(G.deep_programs(), shard, nshards)
+    yield from take(G.many_operand_programs(), shard, nshards)
+    yield from take(G.big_bound_programs(), shard, nshards)
     yield from take(G.w3_depth1(), shard, nshards)
     r = shard_rnd(seed, shard, 2)
     k = 1 if tier == 'quick' else 10
@@ -228,6 +240,8 @@ def qseq_programs():
 
 def wl_c04(tier, seed, shard, nshards):
     yield from take(qseq_programs(), shard, nshards)
+    yield from take(G.big_bound_programs(), shard, nshards)
+    yield from take((it for it in G.deep_programs() if it['prog']['o'] in ('plus', 'q')), shard, nshards)
     yield from take(G.w5_lattice(tier), shard, nshards)
     r = shard_rnd(seed, shard, 3)
     n = 2000 if tier == 'quick' else 10000
@@ -289,6 +303,7 @@ def wl_c05(tier, seed, shard, nshards):
                 yield {'prog': G.OPN('nfol', x, x, e), 'form': 'c', 'w': 'W3e'}
     yield from take(det(), shard, nshards)
     yield from take(backref_programs(), shard, nshards)
+    yield from take((it for it in G.many_operand_programs() if 'empty' in json.dumps(it['prog'])[:200000]), shard, nshards)
     r = shard_rnd(seed, shard, 5)
     n = (6000 if tier == 'quick' else 60000) // nshards
     for item in G.w4_random(r, n, p_empty=0.25):
@@ -332,7 +347,8 @@ def wl_c08(tier, seed, shard, nshards):
         # naming / renaming touches only the outermost group and gives it exactly the new name: old and new names that
         # are prefixes / suffixes / case variants of each other, with a later reference to the new name
         pairs = [('id1', 'id'), ('id', 'id1'), ('total', 'tot'), ('__', '_'), ('_', '__'), ('N', 'n'), ('n', 'N'), ('n', 'n'),
-                 ('a_b', 'a'), ('xn', 'n'), ('n1', 'n2'), ('é', 'e'), ('e', 'é'), ('NAME_2', 'NAME')]
+                 ('a_b', 'a'), ('xn', 'n'), ('n1', 'n2'), ('é', 'e'), ('e', 'é'), ('NAME_2', 'NAME'),
+                 ('né', 'w'), ('w', 'né'), ('größe', 'g'), ('_名前', 'n'), ('né', 'ne'), ('x٣', 'x3')]
         bodies = [G.L('a'), G.OPN('alt', G.L('a'), G.L('bc')), G.OPN('cat', G.L('a'), G.OPN('cap', G.L('b'), name='inner')), G.L('(?P<id>')]
         for old_, new_ in pairs:
             for b in bodies:
@@ -343,7 +359,7 @@ def wl_c08(tier, seed, shard, nshards):
                     yield {'prog': G.OPN('cap', G.OPN('grp', inner), name=new_), 'form': f, 'w': 'W8n'}
                     yield {'prog': G.OPN('cap', G.OPN('cap', inner), name=new_), 'form': f, 'w': 'W8n'}
                     yield {'prog': G.OPN('cat', G.OPN('cap', inner, name=new_), G.OPN('cond', G.L('y'), G.L('z'), name=new_)), 'form': f, 'w': 'W8n'}
-    yield from take(itertools.chain(det(), renames()), shard, nshards)
+    yield from take(itertools.chain(det(), renames(), (it for it in G.deep_programs() if it['prog']['o'] in ('cap', 'grp'))), shard, nshards)
     r = shard_rnd(seed, shard, 8)
     n = (5000 if tier == 'quick' else 50000) // nshards
     for _ in range(n):
@@ -399,6 +415,14 @@ def wl_c09(tier, seed, shard, nshards):
                 yield {'prog': G.OPN('ex', x, n=n), 'form': 'o', 'w': 'W5q'}
                 yield {'prog': G.OPN('ex', x, n=n, rmul=True), 'form': 'o', 'w': 'W5q'}
     yield from take(det(), shard, nshards)
+    yield from take((it for it in G.deep_programs() if it['prog']['o'] in ('plus', 'q')), shard, nshards)
+    long_ = 'assertion-text-that-is-longer-than-any-small-window-0123456789-abcdefghijklmnopqrstuvwxyz'
+    longs = [G.OPN('fol', G.L('x'), G.L(long_)), G.OPN('pre', G.L('x'), G.L(long_)), G.OPN('lenc', G.L('x'), G.L(long_)), G.OPN('mas', G.L(long_ * 3)),
+             G.OPN('male', G.L(long_ * 3)), G.OPN('fol', G.L(long_ * 2), G.L('z')), G.OPN('fol', G.L('x'), G.MT('IPv4')), G.OPN('pre', G.L('x'), G.L('ab'), G.L(long_)),
+             G.OPN('nfol', G.L('x'), G.L(long_)), G.OPN('npre', G.L('x'), G.L(long_)), G.OPN('male', G.MT('Word')), G.OPN('mae', G.MT('Integer')),
+             G.OPN('fol', G.MT('Date'), G.L('z')), G.OPN('male', G.OPN('cat', {'o': 'wb'}, G.L('ab'))), G.OPN('mae', G.OPN('npre', G.L('ab'), G.L('c'))),
+             G.OPN('fol', G.OPN('cat', {'o': 'nwb'}, G.L('ab')), G.L('z')), G.OPN('mas', G.OPN('nfol', G.L('ab'), G.L('c')))]
+    yield from take(({'prog': q(x), 'form': f, 'w': 'W9long'} for x in longs for q in quants for f in 'cm'), shard, nshards)
     r = shard_rnd(seed, shard, 9)
     n = (3000 if tier == 'quick' else 40000) // nshards
     for _ in range(n):
@@ -435,6 +459,10 @@ def lookbehind_operands():
             O('alt', G.PL('-'), G.PL('minus'), f='m'), O('alt', G.PL('ab'), G.PL('c'), f='m'), O('alt', G.PL('ab'), G.PL('c'), f='m', left=True),
             O('alt', G.CLS('AnyLetter'), G.PL('ab'), f='m'), O('cat', O('alt', G.PL('-'), G.PL('minus'), f='m'), G.PL('c'), f='m'),
             O('alt', G.PL('ab'), G.PL('-'), G.PL('minus'), f='m'), O('alt', G.PL('-'), G.PL('c'), f='m'),
+            # wide but fixed (beyond small-int / small-buffer limits) and wide but variable
+            O('ex', G.CLS('AnyDigit'), n=255), O('ex', G.CLS('AnyDigit'), n=256), O('ex', G.CLS('AnyDigit'), n=257), O('ex', G.CLS('AnyDigit'), n=300),
+            Lx('k' * 256), Lx('k' * 257), Lx('ab' * 500), O('ex', O('alt', Lx('ab'), Lx('cd')), n=150), O('ex', O('ex', O('ex', Lx('a'), n=7), n=7), n=7),
+            O('q', G.CLS('AnyDigit'), n=256, m=257), O('alt', Lx('k' * 257), Lx('j' * 258)), O('alt', Lx('k' * 257), Lx('j' * 257)), O('ex', Lx('a'), n=65536),
             ]
 
 
@@ -717,7 +745,7 @@ def replay(case, check, seed=0):
     if case.get('kind') == 'cls':
         from . import cls
         return cls.replay(case, check, seed)
-    if case.get('kind') in ('int', 'int-invalid', 'dec', 'dec-invalid', 'dec-glue', 'dec-unbounded', 'numeral', 'numeral-invalid', 'word', 'ipv4', 'ipv6', 'date', 'date-invalid', 'date-invalid-late'):
+    if case.get('kind') in ('int', 'int-invalid', 'dec', 'dec-invalid', 'dec-glue', 'dec-unbounded', 'numeral', 'numeral-invalid', 'word', 'ipv4', 'ipv6', 'date', 'date-invalid', 'date-invalid-late', 'defaults', 'big-bounds', 'prefix-affix', 'date-lists'):
         from . import meta
         return [v for v in meta.replay(case, check, seed) if meta.is_c03(v['symptom'])]
     from .interp import Interp
